@@ -13,6 +13,8 @@
          complex binary64
    sd <cutoff_type> <alpha> <zeta> <cutoff> <w>                         (bit patterns)
       -> "rebits imbits" of the generated PowerLawSD spectral density, or "rejected"
+   config
+      -> "INTEGRATE_EPSREL SUBDIV_LIMIT true" as regenerated from oqupy/config.py
 -/
 import OQuPyVerif.Model.Proto
 import OQuPyVerif.Model.BathCorr
@@ -99,6 +101,7 @@ def step (line : String) : String :=
       | some v => showCF v
       | none => "rejected"
     | _, _, _, _ => "bad-op"
+  | ["config"] => s!"{showRat integrateEpsrel} {subdivLimit} {quadratureDefaultsAreConfig}"
   | _ => "bad-op"
 
 def main : IO Unit := mainLoop step
